@@ -258,6 +258,8 @@ Next ==
        [] e.ev = "delete_range" -> Unch /\ DeleteRangeRule(e)
        [] e.ev = "safepoint_read" -> Unch /\ SafePointRule(e)
        [] e.ev = "safepoint_midscan" -> Unch /\ MidScanRule(e)
+       \* keyspace runs (C15): the tenant of the neighbouring keyspace reads back exactly what it wrote itself
+       [] e.ev = "foreign_check" -> Unch /\ Check(e.ok, "a keyspace observed or was affected by the data of another keyspace", e.ok)
        [] e.ev = "livelock" -> Unch /\ Bad("a call kept sending requests without end (no progress within the RPC budget of one scenario)", <<e.client, e.cmd>>)
        [] e.ev = "store_panic" -> Unch /\ Bad("a request reached a region that does not contain its key (the store refused it)", <<e.client, e.cmd, e.req>>)
        [] OTHER -> Unch
